@@ -335,6 +335,9 @@ class Sched:
         p.pending = None
         p.release("crash")
         p.wait_settled()
+        if p.pending is not None and p.pending[0] == "put":
+            # the exception did not end the worker: it goes on talking to the parent (e.g. a sentinel sent from a finally clause)
+            raise Divergence("crashed_worker_keeps_sending", {"w": w, "item": "sentinel" if p.pending[1] is None else "record"})
         if p.pending is None or p.pending[0] != "raised":
             raise Divergence("crash_not_propagated", {"w": w, "pending": str(p.pending)[:60]})
         p.state = "failing"
